@@ -33,7 +33,7 @@ def cases(tier, seed):
     for rep in range(reps):
         for i, (rate, bs) in enumerate(grid):
             b = bs[1]
-            nT = rng.choice([2, 3, 4, 5, b - 1, b, b + 1, 2 * b + 3, 128, 129])
+            nT = [2, 3, 4, 5, b - 1, b, b + 1, 2 * b + 3, 128, 129][(i + 3 * rep) % 10]
             nT = max(2, min(nT, 1100))
             nZ = rng.choice([2, 3, 7, 50, bs[2] - 1, bs[2], bs[2] + 1, 2 * bs[2] + 1])
             nZ = max(2, min(nZ, 1200))
